@@ -4,6 +4,7 @@
 use serde_json::{json, Value};
 
 mod c07;
+mod c02;
 mod c03;
 mod c05;
 mod c08;
@@ -49,6 +50,7 @@ fn run(name: &str, args: &Value) -> Value {
         "c18_lifecycle" => c18::lifecycle(args),
         "c12_ws_batch" => c12::ws_batch(args),
         "c12_http_batch" => c12::http_batch(args),
+        "c02_batches" => c02::batches(args),
         "c03_fast_reply" => c03::fast_reply(args),
         "c03_subid_collision" => c03::subid_collision(args),
         "c05_array_vs_single" => c05::array_vs_single(args),
